@@ -129,9 +129,10 @@ PROPS["C07"]["pre"] = GEN_DERIVE
 PROPS["C07"]["runs"].append(dict(features=["c07", "big"], cfg="nostd", stubbing=True, jobs=2, mem_gb=28, harness_timeout=1500, timeout=7200, filters={"quick": [], "thorough": ["c07h_"]}))
 PROPS["C07"]["runs"].append(dict(features=["c07"], cfg="std", jobs=8, filters={"quick": ["c07q_iow"], "thorough": ["c07q_iow", "c07t_iow", "c07q_ent_vec_opt_2", "c07q_ent_u32", "c07q_ent_string_2", "c07q_bulk_enc_u16"]}))
 PROPS["C16"]["pre"] = GEN_DERIVE
-PROPS["C01"]["pre"] = GEN_DERIVE
-PROPS["C02"]["pre"] = GEN_DERIVE
-PROPS["C03"]["pre"] = GEN_DERIVE
+GEN_BOTH = GEN_DERIVE + [["python3", "tools/gen_matrix.py"]]
+PROPS["C01"]["pre"] = GEN_BOTH
+PROPS["C02"]["pre"] = GEN_BOTH
+PROPS["C03"]["pre"] = GEN_BOTH
 PROPS.update({
     "C05": simple(5, pre=GEN_DERIVE,
         bounds="generated family G (tools/gen_derive.py: ~40 definitions quick, ~53 thorough; shapes unit/tuple/named x 0..4 fields x {none, skip, compact, encoded_as} x field types x enums with index attribute / discriminant / position / skip incl. all-variants-skipped, repr(transparent), single-field forwarders) plus hand-written generic / CompactAs / nested members; every definition decided over ALL its values (encode, round trip) and ALL byte strings up to max length + 1 (decode; the index byte ranges over all 256 values)",
@@ -197,7 +198,7 @@ PROPS["C20"] = dict(
     explanation="By transitivity through the configuration-independent reference model: for all v: enc_X(v) == spec(v) in every configuration X gives enc_X == enc_Y, and likewise accept/reject and decoded values. Only is_ok()/is_err() of errors is compared, never their descriptions.",
 )
 
-PROPS["C20"]["pre"] = GEN_DERIVE
+PROPS["C20"]["pre"] = GEN_BOTH
 
 HOOK_COMMITS = ["9ece5a5"]
 NOT_APPLICABLE = {}
